@@ -489,6 +489,10 @@ func c15RunSeed(seed uint64, tier string) *Outcome {
 	if rr.P(0.3) {
 		g.addrs = append(g.addrs, "did:example:"+fmt.Sprint(rr.Intn(100)))
 	}
+	if rr.P(0.4) {
+		// the other spelling of an address is another string: what was signed for one is not a record of the other
+		g.addrs = append(g.addrs, strings.ToUpper(g.addrs[0]))
+	}
 	for i := 0; i < rr.Range(2, 3); i++ {
 		g.links = append(g.links, fmt.Sprintf("ipfs://%x", rr.U64()))
 	}
